@@ -325,6 +325,9 @@ def dot(a, b):
     if not hasattr(a, "ndim") or not hasattr(b, "ndim"):
         raise TypeError(f"Cannot perform dot product on types {type(a)}, {type(b)}")
 
+    if a.ndim == 0 or b.ndim == 0:
+        return tensordot(a, b, axes=0)
+
     if a.ndim == 1 and b.ndim == 1:
         if a.shape != b.shape:
             raise ValueError(f"shapes {a.shape} and {b.shape} not aligned: {a.shape[0]} (dim 0) != {b.shape[0]} (dim 0)")
